@@ -71,9 +71,8 @@ def tasks(tier):
             if fam in ("F4", "F4c") and sec != "Parameter":
                 continue
             fcap = b["field_cap"]
-            if tier == "thorough":
-                # per-family capacities measured against the 120 s query limit: the period-less form is cheap, the time forms are not
-                fcap = {"F2": 4, "F4": 2, "F4c": 2}.get(fam, fcap)
+            # per-family capacities measured against the 120 s query limit: the period-less form is cheap, the time forms are not
+            fcap = {"F2": 4, "F4": 2, "F4c": 2}.get(fam, fcap)
             out.append({"name": "%s/%s" % (fam, sec), "params": {"family": fam, "section": sec, "fcap": fcap, "pcap": b["pad_cap"]},
                         "weight": 3 if sec == "Parameter" else 1})
     # the parse of a line does not depend on the lines parsed before it: a line of the other basic form
